@@ -2067,6 +2067,15 @@ add('c18-benign-stack-drained-with-reversed-loop', 'C18', 'benign', [(PARSER, ""
             builder.append(token)""")])
 add('c18-number-regex-with-unicode-digits', 'C18', 'break', [(OPERAND, """(?>[0-9]+(?>\\.[0-9]+)?|\\.[0-9]+)(?>E[+-][0-9]+)?""", """(?>\\d+(?>\\.\\d+)?|\\.\\d+)(?>E[+-]\\d+)?""")], expect='C18.num')
 
+add('c20-digit-check-removed', 'C20', 'break', [(ENG, """        if isinstance(x, str) and not set(x) <= _xdigits[base]:
+            raise ValueError  # `int` accepts also signs, blanks, `_`, and `0x`.
+""", "")], expect='C20.digits')
+add('c20-benign-digit-check-with-all', 'C20', 'benign', [(ENG, """        if isinstance(x, str) and not set(x) <= _xdigits[base]:
+            raise ValueError  # `int` accepts also signs, blanks, `_`, and `0x`.
+""", """        if isinstance(x, str) and not all(c in _xdigits[base] for c in x):
+            raise ValueError
+""")])
+
 if __name__ == '__main__':
     here = os.path.dirname(os.path.abspath(__file__))
     ids = [v['id'] for v in V]
